@@ -32,7 +32,7 @@ def run(ctx):
     try:
         runs = [("Doc32_quick.cfg", None, None, "bfs")]
         if not ctx.quick:
-            runs = [("Doc32_wide.cfg", None, None, "bfs"), ("Doc32_sim.cfg", "num=%d" % (2400 // po.NPROC), 12, "sim")]
+            runs = [("Doc32_wide.cfg", None, None, "bfs"), ("Doc32_sim.cfg", "num=%d" % (8000 // po.NPROC), 12, "sim")]
         tot = {}
         nontriv = set()
         mism = []
@@ -62,7 +62,7 @@ def run(ctx):
         ev.cov(evaluations=tot.get("steps_checked", 0), distinct_nontrivial=len(nontriv),
                traces_validated_against_impl=ncases,
                rule="a case is one history (document tree, operation sequence) of Doc32.tla; exhaustive part: every history of <= 2 steps "
-                    "over the full alphabet (6 selections + 'none', all operations; 57 actions) on 4-page documents of the deep shapes, 1 step "
+                    "over the full alphabet (6 selections + 'none', all operations; 59 actions) on 4-page documents of the deep shapes, 1 step "
                     "on the others, 3 steps over a small alphabet (11 actions) on two shapes; thorough adds -simulate histories of 1-8 steps over 2-30 page documents "
                     "with random selections (Sel.tla terms) and parameters. Each distinct (prefix, step) is executed once with the real "
                     "API and compared; evaluations = steps compared; non-trivial = distinct (operation, selection, parameter) steps that "
